@@ -866,7 +866,10 @@ class Interp:
                 if k.arg in kwargs:
                     raise PyRaise("TypeError", f"multiple values for keyword argument '{k.arg}'")
                 kwargs[k.arg] = self.eval(k.value, env)
-        return self.call(f, args, kwargs)
+        res = self.call(f, args, kwargs)
+        if isinstance(res, ClassVal) and len(args) == 3 and isinstance(f, Builtin) and f.name == "type":
+            res.attrs.setdefault("__module__", self._cur_module(env).name)  # a class made by type(...) belongs to the calling module
+        return res
 
     # ------------------------------------------------------------------ semantics helpers
     def truth(self, v: Any) -> bool:
